@@ -17,7 +17,7 @@ import struct
 
 from refs import lbry_pow as P
 
-VERSION = 'c07-fixtures-v5'
+VERSION = 'c07-fixtures-v6'
 CACHE = os.path.join(os.path.dirname(os.path.dirname(os.path.abspath(__file__))), '.cache', 'c07')
 
 EASY_MAX_TARGET = (1 << 248) - 1
@@ -29,6 +29,9 @@ CYCLE = [150, 300, 75, 600, 150, 20, 1000, 150]
 EASY_LEN = 1080
 FORK_HEIGHTS = 18          # forks / one-rule variants exist for attach heights 1..FORK_HEIGHTS
 FORK_LEN = 3
+# ... and around the end of the first 1000-header chunk (connect() inside / straddling / just above a checkpointed chunk)
+HIGH_HEIGHTS = [998, 999, 1000, 1001, 1002]
+VARIANT_HEIGHTS = list(range(1, FORK_HEIGHTS + 1)) + HIGH_HEIGHTS
 
 
 def easy_delta(h):
@@ -65,7 +68,7 @@ def _generate(log=lambda s: None):
     log(f'easy chain mined ({len(E)} headers)')
     # ---- forks: a second valid chain attached at height k (k = 1..FORK_HEIGHTS)
     forks = {}
-    for k in range(1, FORK_HEIGHTS + 1):
+    for k in VARIANT_HEIGHTS:
         chain = E[:k]
         for j in range(FORK_LEN):
             ts = P.timestamp(E[k + j]) + 7 + 400 * j
@@ -74,7 +77,7 @@ def _generate(log=lambda s: None):
     fx['forks'] = forks
     # ---- valid except for one rule, at height p
     rule = {}
-    for p in range(1, FORK_HEIGHTS + 1):
+    for p in VARIANT_HEIGHTS:
         prev, pp = E[p - 1], (E[p - 2] if p > 1 else None)
         ts = P.timestamp(E[p])
         need = P.required_bits(params, pp, prev)
